@@ -234,6 +234,18 @@ def unit_dataset(item):
             p.case(f"{cfg}|mixed_capacity")
             if not torch.allclose(td2["demand"].float(), want.float(), atol=1e-7):
                 p.violation(sig(env_name, cfg, "values", "per_instance_capacity"), dict(rec, mixed_capacity=True), f"{name}: a dataset file with per-instance capacities {raw2['capacity'].tolist()} is loaded with demands that are not demand_i / capacity_i")
+            # value patterns of the raw integer demands: all 1 (unit-demand instances), all equal to the capacity, 0/1
+            for tag, fill in (("unit_demand", 1.0), ("full_demand", None), ("small_demand", 2.0)):
+                raw3 = generate_env_data("vrp", size, n)
+                cap3 = float(np.asarray(raw3["capacity"]).reshape(-1)[0])
+                raw3["demand"] = np.full_like(raw3["demand"], cap3 if fill is None else fill)
+                np.savez(os.path.join(d2, f"{tag}.npz"), **raw3)
+                td3 = spec.cls.load_data(os.path.join(d2, f"{tag}.npz"))
+                want3 = torch.from_numpy(raw3["demand"]) / torch.from_numpy(np.asarray(raw3["capacity"]))[:, None]
+                p.add(states=1, evaluations=size)
+                p.case(f"{cfg}|{tag}")
+                if not torch.allclose(td3["demand"].float(), want3.float(), atol=1e-7):
+                    p.violation(sig(env_name, cfg, "values", tag), dict(rec, demand_pattern=tag), f"{name}: a dataset file whose raw demands are all {raw3['demand'].reshape(-1)[0]} (capacity {cap3}) is loaded with demand {td3['demand'].reshape(-1)[:3].tolist()}..., expected demand / capacity = {want3.reshape(-1)[0].item()}")
         finally:
             shutil.rmtree(d2, ignore_errors=True)
     p.sample(dict(part="generated_dataset", problem=name, graph_size=n, dataset_size=size), cap=1)
@@ -334,6 +346,26 @@ def unit_parser(item):
             td1 = g(len(chosen))
             p.add(states=1, evaluations=len(chosen))
             p.case(f"{skey}|dir|{[c[0] for c in chosen]}")
+            # the file generator is a cursor over the files: every later pass (second epoch, second evaluation), at every
+            # request size that divides the number of files, must hand out the same instances again
+            N = len(chosen)
+            for bs in sorted({1, N}):
+                g2 = FileGen(d)
+                for pass_ in range(3):
+                    for k in range(N // bs):
+                        try:
+                            tdk = g2(bs)
+                            same = tuple(tdk.batch_size) == (bs,) and all(torch.equal(tdk[key_].float(), td1[key_][k * bs : (k + 1) * bs].float()) for key_ in ("proc_times", "pad_mask", "start_op_per_job", "end_op_per_job"))
+                            what = f"returns batch size {tuple(tdk.batch_size)} / different instances"
+                        except Exception as e:  # noqa: BLE001
+                            same, what = False, f"raises {type(e).__name__}: {str(e)[:80]}"
+                        p.add(states=1, evaluations=bs)
+                        if not same:
+                            p.violation(sig(env_name, skey.partition(":")[2], "values", "repeated_pass_over_files"), dict(rec, request=bs, pass_no=pass_), f"{skey}: directory of {N} files, requests of {bs}: request {k} of pass {pass_} {what} (first pass gave the written instances)")
+                            break
+                    else:
+                        continue
+                    break
             # files are listed in directory order: match every read instance to a written one by content
             for r in range(td1.batch_size[0]):
                 real = int((~td1["pad_mask"][r]).sum())
